@@ -209,9 +209,9 @@ Proof.
 Qed.
 
 (* ---- Instance.fields() / Instance.alias as a function of the fields as written (anchor: field iteration) ---- *)
-Theorem C20_fields_digest : forall al l f,
-  In f (digest_fields al l) ->
-  exists r, In r l /\ r_init r = true /\ digest_field al r = Some f /\
+Theorem C20_fields_digest : forall al dial conf l f,
+  In f (digest_fields al dial conf l) ->
+  exists r, In r l /\ r_init r = true /\ digest_field al dial conf r = Some f /\ f_ty f = resolve_field dial conf r /\
             f_req f = (match r_def r with RNone => true | _ => false end) /\
             (f_default f <> None <-> exists v, r_def r = RDefault v).
 Proof. exact digest_fields_spec. Qed.
@@ -220,15 +220,15 @@ Print Assumptions C20_fields_digest.
 (* the new constructs (leaf formats, Enum / Literal, TypedDict with sorted required keys, description, alias resolution,
    init=False) in one run: total, closed, well formed and a round-trip fixed point *)
 Definition ER : list (string * rcls) :=
-  [("Leafy", mkrcls [("u", "cfg_u")]
-      [mkrfld "when" None None (TLeaf "string" (Some "date-time") None) true RNone (Some "when it happened");
-       mkrfld "u" None None (TLeaf "string" (Some "uuid") None) true (RDefault (JStr "0")) None;
-       mkrfld "a2" None (Some "ann2") TBool true (RDefault (JBool false)) None;
-       mkrfld "hidden" None None TInt false (RDefault (JInt 1)) None;
-       mkrfld "e" (Some "") (Some "ann") (TEnum false [JStr "a"; JInt 2]) true RFactory (Some "");
-       mkrfld "l" (Some "meta") (Some "ann") (TEnum true [JInt 0]) true (RDefault (JInt 0)) None;
-       mkrfld "td" None None (TTyped ["b"; "a"; "c"] [TInt; TClass "Other"; TStr] [true; true; false]) true RFactory None]);
-   ("Other", mkrcls [] [mkrfld "z" None None TInt true RNone None])].
+  [("Leafy", mkrcls [("u", "cfg_u")] [] []
+      [mkrfld "when" None None (TLeaf "string" (Some "date-time") None) true RNone (Some "when it happened") None None;
+       mkrfld "u" None None (TLeaf "string" (Some "uuid") None) true (RDefault (JStr "0")) None None None;
+       mkrfld "a2" None (Some "ann2") TBool true (RDefault (JBool false)) None None None;
+       mkrfld "hidden" None None TInt false (RDefault (JInt 1)) None None None;
+       mkrfld "e" (Some "") (Some "ann") (TEnum false [JStr "a"; JInt 2]) true RFactory (Some "") None None;
+       mkrfld "l" (Some "meta") (Some "ann") (TEnum true [JInt 0]) true (RDefault (JInt 0)) None None None;
+       mkrfld "td" None None (TTyped ["b"; "a"; "c"] [TInt; TClass "Other"; TStr] [true; true; false]) true RFactory None None None]);
+   ("Other", mkrcls [] [] [] [mkrfld "z" None None TInt true RNone None None None])].
 
 Example C20_new_constructs_nonvacuous :
   keys (match lookup "Leafy" (digest_tab ER) with Some fs => map (fun f => (f_alias f, f_ty f)) fs | None => [] end)
@@ -239,3 +239,29 @@ Proof.
   split; [reflexivity|].
   eexists _, _. split; [vm_compute; reflexivity|]. repeat split; vm_compute; reflexivity.
 Qed.
+
+(* ---- overridden serialization (on_type_with_overridden_serialization) as a rewriting of field types ---- *)
+Theorem C20_override_noop : forall t, resolve_ty [] [] t = t.
+Proof. exact resolve_ty_noop. Qed.
+Print Assumptions C20_override_noop.
+
+(* a type whose third-party classes are all covered by serializing strategies with supported replacements is supported *)
+Theorem C20_override_covered : forall dial conf t, covered dial conf t = true -> ty_ok (resolve_ty dial conf t) = true.
+Proof. exact covered_ok. Qed.
+Print Assumptions C20_override_covered.
+
+Definition EP : list (string * rcls) :=
+  [("Inv", mkrcls [] [("Pt", ORet (Some TInt)); ("int", ODeser)] [("int", ORet (Some TStr)); ("Pt", OPass)]
+      [mkrfld "p" None None (TOpaque "Pt") true RNone None None None;
+       mkrfld "ps" None None (TList (TUnion [TOpaque "Pt"; TNone])) true RFactory None None None;
+       mkrfld "n" None None (TDict TInt) true RNone None None None;
+       mkrfld "q" None None (TOpaque "Pt") true RNone None (Some (ORet None)) (Some (OBasic TStr));
+       mkrfld "r" None None TInt true RNone None (Some OPass) (Some (ORet (Some TBool)))]);
+   ("Bare", mkrcls [] [] [] [mkrfld "p" None None (TOpaque "Pt") true RNone None None None])].
+
+Example C20_override_nonvacuous :
+  (match lookup "Inv" (digest_tab EP) with Some fs => map f_ty fs | None => [] end)
+    = [TInt; TList (TUnion [TInt; TNone]); TDict TStr; TAny; TInt] /\
+  (exists s st, schema_fuel (digest_tab EP) (mkcfg false "#") 2 (TClass "Inv") [] = SOk (s, st) /\ meta_ok (render s) = true) /\
+  schema_fuel (digest_tab EP) (mkcfg false "#") 2 (TClass "Bare") [] = SErr.
+Proof. split; [reflexivity|]. split; [eexists _, _; split; [vm_compute; reflexivity|vm_compute; reflexivity]|reflexivity]. Qed.
